@@ -57,11 +57,14 @@ def ir_of_source(src):
     import re
     m = re.search(r"while\s+state\s*<\s*(\d+)\s*\{", src)
     blocks = int(m.group(1)) if m else 0
+    body = src[m.start():] if m else ""
+    k = src.find("fn main()")
+    src = src[k if k >= 0 else 0:(m.start() if m else len(src))]        # the serialised pre-state sits between `fn main` and the loop
     st = re.findall(r"\n\s*state\s*=\s*(\d+)\s*;", src)
     last = re.findall(r"\n\s*last\s*=\s*(?:Option::)?(None|Some\(\s*(\d+)\s*\))\s*;", src)
-    cur = re.findall(r"\n {0,4}cur\s*=\s*(\d+)\s*;", src)
+    cur = re.findall(r"\n\s*cur\s*=\s*(\d+)\s*;", src)
     pts = sorted((int(a), int(b)) for a, b in re.findall(r"point\.insert\((\d+)u128, (\d+)\);", src))
-    tree = re.findall(r"if\s+state\s*<\s*(\d+)\s*\{", src)
+    tree = re.findall(r"if\s+state\s*<\s*(\d+)\s*\{", body)
     stacks = []
     for i, body in re.findall(r"stack\.data\[(\d+)\] = vec!\[(.*?)\]\.iter\(\)", src):
         vals = re.findall(r'"((?:[^"\\]|\\.)*)", ', body)
